@@ -116,6 +116,15 @@ impl AutoAllocState {
         self.queues.values().any(|q| q.state().is_active())
     }
 
+    /// Verification hook: the private `allocation_to_queue` index.
+    #[cfg(it4innovations_hyperqueue_verif)]
+    pub fn verif_allocation_to_queue(&self) -> Vec<(AllocationId, QueueId)> {
+        self.allocation_to_queue
+            .iter()
+            .map(|(k, v)| (k.clone(), *v))
+            .collect()
+    }
+
     #[cfg(test)]
     pub fn set_max_kept_directories(&mut self, count: usize) {
         self.max_kept_directories = count;
@@ -216,6 +225,10 @@ impl AllocationQueue {
 
     #[cfg(test)]
     pub fn set_handler(&mut self, handler: Box<dyn QueueHandler>) {
+        self.handler = handler;
+    }
+    #[cfg(it4innovations_hyperqueue_verif)]
+    pub fn verif_set_handler(&mut self, handler: Box<dyn QueueHandler>) {
         self.handler = handler;
     }
 
@@ -549,6 +562,23 @@ impl RateLimiter {
     pub fn allocation_fail_count(&self) -> u64 {
         self.allocation_fails
     }
+
+    /// Verification hook: read-only view of the private fields
+    /// (delays, current_delay, last_submission, allocation_fails, max_allocation_fails,
+    /// submission_fails, max_submission_fails).
+    #[cfg(it4innovations_hyperqueue_verif)]
+    #[allow(clippy::type_complexity)]
+    pub fn verif_snapshot(&self) -> (Vec<Duration>, usize, Option<Instant>, u64, u64, u64, u64) {
+        (
+            self.submission_delays.clone(),
+            self.current_delay,
+            self.last_submission,
+            self.allocation_fails,
+            self.max_allocation_fails,
+            self.submission_fails,
+            self.max_submission_fails,
+        )
+    }
 }
 
 #[cfg(test)]
@@ -634,4 +664,11 @@ mod tests {
         state.remove_queue(id);
         assert_eq!(state.allocation_to_queue.len(), 0);
     }
+}
+
+/// Verification hook (journal component): the first queue id an `AutoAllocState` seeded with
+/// `queue_id_counter` issues (`create_id` is private).
+#[cfg(it4innovations_hyperqueue_verif)]
+pub fn verif_first_queue_id(queue_id_counter: u32) -> QueueId {
+    AutoAllocState::new(queue_id_counter).create_id()
 }
